@@ -31,9 +31,10 @@ class OneWayBarrier : public galois::substrate::Barrier {
   std::condition_variable cond;
   unsigned count;
   unsigned total;
+  unsigned generation;
 
 public:
-  OneWayBarrier(unsigned p) { reinit(p); }
+  OneWayBarrier(unsigned p) : generation(0) { reinit(p); }
 
   virtual ~OneWayBarrier() {}
 
@@ -44,9 +45,18 @@ public:
 
   virtual void wait() {
     std::unique_lock<std::mutex> tmp(lock);
+    unsigned gen = generation;
     count += 1;
-    cond.wait(tmp, [this]() { return count >= total; });
-    cond.notify_all();
+    if (count >= total) {
+      // Last arrival releases this phase and re-arms the barrier while still
+      // holding the lock. Waiters test the generation, not the count, so a
+      // waiter that wakes up after the re-arm still sees its phase complete.
+      count = 0;
+      generation += 1;
+      cond.notify_all();
+    } else {
+      cond.wait(tmp, [this, gen]() { return generation != gen; });
+    }
   }
 
   virtual const char* name() const { return "OneWayBarrier"; }
@@ -70,12 +80,8 @@ public:
 
   virtual void wait() {
     barrier1.wait();
-    if (galois::substrate::ThreadPool::getTID() == 0)
-      barrier1.reinit(total);
     GALOIS_VERIF_POINT(BAR_SIMPLE_MID);
     barrier2.wait();
-    if (galois::substrate::ThreadPool::getTID() == 0)
-      barrier2.reinit(total);
   }
 
   virtual const char* name() const { return "SimpleBarrier"; }
